@@ -51,10 +51,10 @@ PatSetW == <<AllPats, AllPats, AllPats, {Ev("ObjectCreated", "*")}, {Ev("ObjectC
 GenRule(id) == [id |-> id, dtype |-> R({"Queue", "Topic", "Fn"}), events |-> RW(PatSetW),
                 prefix |-> RW(PrefixW), suffix |-> RW(SuffixW)]
 GenRules(z) == LET n == RW(<<1, 2, 2, 3, 3>>) IN {GenRule(id) : id \in {<<"r1", "r2", "r3">>[i] : i \in 1..n}}
-BackoffW == <<<<1, 4>>, <<1, 4>>, <<1, 2>>, <<2, 8>>, <<2, 1>>, <<1, 1>>, <<3, 5>>>>
+BackoffW == <<<<1, 4>>, <<1, 4>>, <<1, 2>>, <<2, 8>>, <<2, 1>>, <<1, 1>>, <<3, 5>>, <<1, 0>>, <<1, 4096>>, <<3, 100>>>>
 GenCfg(z, b) ==
   [rules |-> GenRules(z), eb |-> (R(1..3) = 1), versioned |-> (R(1..3) = 1),
-   maxAttempts |-> RW(<<0, 1, 2, 2, 3, 3>>), minB |-> b[1], maxB |-> b[2], lease |-> R(1..3),
+   maxAttempts |-> RW(<<0, 0, 1, 2, 2, 3, 3, 40, 120>>), minB |-> b[1], maxB |-> b[2], lease |-> R(1..3),
    stack |-> RW(<<"sql", "sql", "fs">>)]
 OutcomeW == <<"ok", "ok", "fail", "fail", "fail", "fail", "crashD", "crashN">>
 GenScript(z) == [i \in 1..R(0..7) |-> RW(OutcomeW)]
@@ -120,7 +120,42 @@ GAdvance ==
      /\ hist' = Append(hist, [op |-> "Advance", d |-> d])
   /\ UNCHANGED dmode
 
-GNext == GConfigure \/ GMut \/ GDispatchStart \/ GDisp \/ GCrash \/ GDispatchEnd \/ GAdvance
+\* a long outage: attempt numbers around the start of the exponential schedule, around
+\* the attempt at which the cap is reached, and far beyond (where an implementation
+\* computing MinBackoff * 2^(attempts-1) in machine arithmetic would overflow)
+CapAt(c) == CHOOSE a \in 1..40 : /\ c.minB * Pow2(a - 1) >= EffMaxB(c)
+                                 /\ \A b \in 1..(a - 1) : c.minB * Pow2(b - 1) < EffMaxB(c)
+AttemptClasses(c) == {a \in {1, 2, 3, CapAt(c) - 1, CapAt(c), CapAt(c) + 1, 22, 23, 33, 34, 35, 36, 44, 45, 62, 63, 64, 65, 100} :
+                        a >= 1 /\ (c.maxAttempts = 0 \/ a < c.maxAttempts)}
+GPreset ==
+  /\ dmode = "idle" /\ \E id \in Ids : Idle(id)
+  /\ AttemptClasses(cfg) # {}
+  /\ \E a \in {R(AttemptClasses(cfg))} :
+       /\ PresetAttempts(a - 1)
+       /\ hist' = Append(hist, [op |-> "Preset", n |-> a - 1])
+  /\ UNCHANGED dmode
+
+GNext == GConfigure \/ GPreset \/ GMut \/ GDispatchStart \/ GDisp \/ GCrash \/ GDispatchEnd \/ GAdvance
+
+\* ------------------------------------------------------------- backoff sweep
+\* deterministic cases (cfg NotifyOutbox.Sweep.cfg, one per initial state): one entry,
+\* a publisher that always fails, and for every attempt class in ascending order
+\* Preset(a-1); Dispatch (claim -> attempt a fails -> Release with Backoff(a)); Advance
+\* past the cap.  Only calls are emitted; the trace spec computes Backoff(a).
+SweepBackoffs == {<<1, 4>>, <<1, 0>>, <<2, 1>>, <<1, 4096>>, <<3, 100>>, <<2, 65536>>, <<1, 1>>}
+SweepCfgs == {[rules |-> {[id |-> "r1", dtype |-> "Queue", events |-> {Ev("ObjectCreated", "*")}, prefix |-> <<>>, suffix |-> <<>>]},
+               eb |-> FALSE, versioned |-> FALSE, maxAttempts |-> m, minB |-> b[1], maxB |-> b[2], lease |-> 1, stack |-> "sql"] :
+               b \in SweepBackoffs, m \in {0, 120}}
+SweepHist(c) ==
+  LET cls == SetToSortSeq(AttemptClasses(c), <)
+      round(a) == <<[op |-> "Preset", n |-> a - 1], [op |-> "Dispatch"], [op |-> "Advance", d |-> EffMaxB(c)]>>
+      body[i \in 0..Len(cls)] == IF i = 0 THEN <<>> ELSE body[i - 1] \o round(cls[i]) IN
+  <<[op |-> "Cfg", cfg |-> c, script |-> [i \in 1..Len(cls) |-> "fail"]],
+    [op |-> "Mut", kind |-> "put", key |-> <<"img/", "a", ".jpg">>, key2 |-> <<>>, exists |-> FALSE, fault |-> "none"]>>
+  \o body[Len(cls)]
+SInit == \E c \in SweepCfgs : /\ InitWith(c, <<>>) /\ hist = SweepHist(c) /\ dmode = "sweep"
+SNext == UNCHANGED gvars
+EmitSweep == PrintT(ToJson(hist))
 
 Emit == IF TLCGet("level") = GenDepth THEN PrintT(ToJson(hist)) ELSE TRUE
 =============================================================================
